@@ -185,12 +185,16 @@ impl SampleQueueReceiver {
                 let _guard = self.pop_lock.lock();
                 #[cfg(rustrtc_verif)]
                 let _verif_before_unlock = VerifSchedOnDrop("r_unlock");
+                // Read the flag before the queue: every push happens before the sender's close,
+                // so "closed, then empty" means drained; checked after an empty `pop()`, a push
+                // followed by the sender's drop in between would lose that last sample.
+                #[cfg(rustrtc_verif)]
+                crate::verif::sched("r_closed");
+                let closed = self.closed.load(std::sync::atomic::Ordering::Acquire);
                 if let Some(sample) = self.queue.pop() {
                     return Some(sample);
                 }
-                #[cfg(rustrtc_verif)]
-                crate::verif::sched("r_closed");
-                if self.closed.load(std::sync::atomic::Ordering::Acquire) {
+                if closed {
                     return None;
                 }
             }
